@@ -360,6 +360,33 @@ fn r_to_float<R: Round, const B: dashu_int::Word>(r: &RBig, rel: &Relaxed, prec:
 fn r_to_float_mode<const B: dashu_int::Word>(m: &str, r: &RBig, rel: &Relaxed, prec: usize) -> Res {
     with_mode!(m, r_to_float, B, r, rel, prec)
 }
+// Round 5: the mirrored `Repr::to_float` / `From<Repr> for FBig` (`.code` ops): ONE stored representation per op
+// (the algorithm's digit counts depend on it), the precision of the result is printed too.
+fn r_to_float_code<R: Round, const B: dashu_int::Word>(r: Option<&RBig>, rel: Option<&Relaxed>, prec: usize) -> Res {
+    let f = |a: Approximation<FBig<R, B>, Rounding>| match a {
+        Approximation::Exact(v) => format!("{} {} Exact", f_frepr(v.repr()), f_dec(v.precision())),
+        Approximation::Inexact(v, r) => format!("{} {} {}", f_frepr(v.repr()), f_dec(v.precision()), f_rounding(r)),
+    };
+    match (r, rel) {
+        (Some(x), _) => merge(&["rbig"], vec![run1(|| f(x.to_float::<R, B>(prec)))]),
+        (_, Some(y)) => merge(&["relaxed"], vec![run1(|| f(y.to_float::<R, B>(prec)))]),
+        _ => Err("bad-arg".into()),
+    }
+}
+fn r_to_float_code_mode<const B: dashu_int::Word>(m: &str, r: Option<&RBig>, rel: Option<&Relaxed>, prec: usize) -> Res {
+    with_mode!(m, r_to_float_code, B, r, rel, prec)
+}
+fn f_from_rat_code<R: Round, const B: dashu_int::Word>(r: Option<RBig>, rel: Option<Relaxed>) -> Res {
+    let x: FBig<R, B> = match (r, rel) {
+        (Some(x), _) => x.into(),
+        (_, Some(y)) => y.into(),
+        _ => return Err("bad-arg".into()),
+    };
+    Ok(format!("{} {}", f_frepr(x.repr()), f_dec(x.precision())))
+}
+fn f_from_rat_code_mode<const B: dashu_int::Word>(m: &str, r: Option<RBig>, rel: Option<Relaxed>) -> Res {
+    with_mode!(m, f_from_rat_code, B, r, rel)
+}
 fn f_from_rbig<const B: dashu_int::Word>(r: RBig) -> Res {
     // `From<RBig> for FBig` (infallible by type): reports the float and the rational it denotes
     let x: FBig<Zero, B> = r.into();
@@ -617,6 +644,31 @@ pub fn dispatch(op: &str, args: &[&str]) -> Option<Res> {
                 let (x, y) = (rbig(args, 2)?, relaxed(args, 2)?);
                 let prec = p_usize(arg(args, 4)?)?;
                 with_base!(b, r_to_float_mode, m, &x, &y, prec)
+            }
+            "r.to_float.code" | "rx.to_float.code" => {
+                // <base> <mode> <num> <den> d:<precision>; `r.` = RBig (lowest terms), `rx.` = Relaxed
+                let b = p_usize(arg(args, 0)?)?;
+                let m = arg(args, 1)?;
+                let prec = p_usize(arg(args, 4)?)?;
+                if op.starts_with("rx.") {
+                    let y = relaxed(args, 2)?;
+                    with_base!(b, r_to_float_code_mode, m, None, Some(&y), prec)
+                } else {
+                    let x = rbig(args, 2)?;
+                    with_base!(b, r_to_float_code_mode, m, Some(&x), None, prec)
+                }
+            }
+            "f.from.rbig.code" | "f.from.relaxed.code" => {
+                // <base> <mode> <num> <den>
+                let b = p_usize(arg(args, 0)?)?;
+                let m = arg(args, 1)?;
+                if op == "f.from.relaxed.code" {
+                    let y = relaxed(args, 2)?;
+                    with_base!(b, f_from_rat_code_mode, m, None, Some(y))
+                } else {
+                    let x = rbig(args, 2)?;
+                    with_base!(b, f_from_rat_code_mode, m, Some(x), None)
+                }
             }
             "f.from.rbig" => {
                 let b = p_usize(arg(args, 0)?)?;
